@@ -331,8 +331,10 @@ class C08(Prop):
                    "over all rearrangements)", "json.load is the inverse of the modelled printer (layout oracle)"]
     partial = {"C08_perm_treeinfo": "full for main_variant = None or the container key of a top-level variant (TI.MainVariantTop); a UID / dashed "
                "path designating a child is resolved by a first-match scan and is outside the theorem (covered by correspondence)",
-               "C08_perm_manifests": "stated on the stored mapping (JEq payloads); that two add-call histories differing in the order of "
-               "non-colliding calls build JEq mappings is checked by correspondence (C12 model), not proved",
+               "C08_perm_manifests": "stated on the stored mapping (JEq payloads). For add HISTORIES: proved that two accepted calls at "
+               "different [variant][arch][key] addresses commute up to dict order (C08_manifests_updates_commute, C08_rpms_adds_commute, "
+               "C08_modules_adds_commute); missing for whole histories: the congruence JEq s s' -> JEq (add s a).1 (add s' a).1 (and the "
+               "leaf-level case of two rpms of one srpm) - histories are covered by correspondence on every rearranged order",
                "C08_perm_composeinfo": "bytes of successful dumps (which exception a failing dump raises can depend on the order: the first "
                "offending child wins)"}
 
